@@ -1465,8 +1465,11 @@ fn oracle_c13(o: &Outcome) -> (Verdict, bool, Vec<(String, u64)>) {
             nontrivial = true;
         }
         counters.push((format!("tap_events_{side}"), tap.len() as u64));
-        if min_rwnd_seen != u32::MAX {
-            counters.push((format!("min_a_rwnd_seen_by_{side}"), min_rwnd_seen as u64));
+        if min_rwnd_seen < 1200 {
+            counters.push(("endpoints_that_saw_a_rwnd_below_1200".to_string(), 1));
+        }
+        if min_rwnd_seen == 0 {
+            counters.push(("endpoints_that_saw_a_rwnd_zero".to_string(), 1));
         }
     }
     if o.scn.idle_ms >= 3 * o.scn.hb_ms && o.end == EndReason::Complete {
